@@ -3,6 +3,7 @@ package logger
 
 import (
 	"bytes"
+	"encoding/json"
 	"io"
 	"os"
 	"sync"
@@ -142,6 +143,17 @@ func writeLevel(buf *bytes.Buffer, level Level, useColor bool) {
 			buf.WriteString("ERR")
 		}
 	}
+}
+
+// writeJSONString writes a string encoded as a JSON string.
+// strconv.Quote() cannot be used since it generates Go escape sequences
+// (\x01, \a, \U0001f600) that are not valid in JSON.
+func writeJSONString(buf *bytes.Buffer, s string) {
+	enc, err := json.Marshal(s)
+	if err != nil {
+		enc = []byte(`""`)
+	}
+	buf.Write(enc)
 }
 
 // Log writes a log entry.
